@@ -18,7 +18,7 @@ LEVEL_NOTE = ("Trusted: the seam interposes the libc entry points listed in DESI
 RULE = ("case = generated project x configuration point; one fault-free --check run plus one run per sampled/enumerated "
         "(operation k, action) with action in {fail errno, short, eintr, kill_before, kill_after, sig_before, sig_after}. "
         "Non-trivial = run with a fired fault or a distinct configuration point; distinct = (world, k, action, errno).")
-PROBES = ["other_file_system", "odd_argv", "stdout_closed", "tmpdir_missing", "lock_corrupt", "lock_valid", "cache_off", "error_config", "no_missing_refs", "fault_fired", "killed", "signalled"]
+PROBES = ["old_leftovers", "other_file_system", "odd_argv", "stdout_closed", "tmpdir_missing", "lock_corrupt", "lock_valid", "cache_off", "error_config", "no_missing_refs", "fault_fired", "killed", "signalled"]
 ASSUMPTIONS = ["stat/open-for-read/readdir are not modifications"]
 DEADLINE = {"quick": 200, "thorough": 3000}
 
@@ -54,6 +54,16 @@ def gen(rng):
     if rng.random() < 0.3:
         wm["extra"]["proj/src/.main.rs.swp"] = {"t": "f", "mode": 0o600, "data": b"swap"}
         wm["extra"]["proj/Breadlog.lock.bak"] = {"t": "f", "mode": 0o644, "data": core.lock_text(7)}
+    if rng.random() < 0.5:
+        # ... and those leftovers are old (hours, days, a year before the simulated "now"): nothing a check run may tidy up
+        old = 1790000000 - rng.choice([3 * 3600, 2 * 86400, 400 * 86400])
+        mt = dict(wm.get("mtimes") or {})
+        for q in ("tmp/leftover.tmp", "proj/Breadlog.lock.tmp", "tmp/breadlog-0b0c7a52-1111-4222-8333-444455556666.tmp",
+                  "proj/src/.main.rs.swp", "proj/Breadlog.lock.bak"):
+            if q in wm["extra"]:
+                mt[q] = old
+        wm["mtimes"] = mt
+        tags.append("old_leftovers")
     err = rng.random() < 0.15
     if err:
         tags.append("error_config")
